@@ -11,6 +11,7 @@ mod c05;
 mod cpr_ref;
 mod c13;
 mod c14;
+mod c15;
 mod c18;
 
 use common::*;
@@ -97,6 +98,7 @@ fn dispatch(id: &str, ctx: &Ctx, rep: &Report) {
         "C09" => c09::run(ctx, rep),
         "C13" => c13::run(ctx, rep),
         "C14" => c14::run(ctx, rep),
+        "C15" => c15::run(ctx, rep),
         "C18" => c18::run(ctx, rep),
         _ => {
             eprintln!("unknown property {id}");
@@ -113,6 +115,7 @@ fn dispatch_replay(id: &str, w: &serde_json::Value, rep: &Report) {
         "C09" => c09::replay(w, rep),
         "C13" => c13::replay(w, rep),
         "C14" => c14::replay(w, rep),
+        "C15" => c15::replay(w, rep),
         "C18" => c18::replay(w, rep),
         _ => {
             eprintln!("unknown property {id}");
